@@ -376,9 +376,12 @@ Chain(s, l) == IF s.attrsR /\ s.parent[l] # 0 THEN Chain(s, s.parent[l]) \o s.cf
 CtxKeyAttr(a) == 50 + (IF a >= 10 THEN a - 10 ELSE a)
 FromCtx(s, l, cv) ==
     LET ks == s.cfg[l].ctx
-        Val(a) == IF \E x \in DOMAIN cv : cv[x][1] = a THEN cv[CHOOSE x \in DOMAIN cv : cv[x][1] = a][2] ELSE 0
+        \* a key is looked up by its identity; a value that is PRESENT counts, whatever it is (0 - the zero value
+        \* of its type - included); the last value stored for a key is the one the context returns
+        Has(a) == \E x \in DOMAIN cv : cv[x][1] = a
+        Val(a) == cv[CHOOSE x \in DOMAIN cv : cv[x][1] = a /\ \A y \in DOMAIN cv : y > x => cv[y][1] # a][2]
         F[x \in 0..Len(ks)] == IF x = 0 THEN <<>>
-                               ELSE F[x - 1] \o (IF Val(ks[x]) > 0 THEN <<<<CtxKeyAttr(ks[x]), Val(ks[x])>>>> ELSE <<>>)
+                               ELSE F[x - 1] \o (IF Has(ks[x]) THEN <<<<CtxKeyAttr(ks[x]), Val(ks[x])>>>> ELSE <<>>)
     IN F[Len(ks)]
 Sources(s, l, cv, ca) == FromCtx(s, l, cv) \o Chain(s, l) \o ca
 ExpectM(s, e) == Leaves(Sources(s, e.l, CtxVals[e.a], CallArgs[e.b]), <<>>)
